@@ -23,7 +23,7 @@ RULE = ("models x every exactly identified plan with 1 or 2 (variable,date) targ
         "(from unplanned unit simulations) has condition number > 1e6 are excluded; distinct non-trivial = (model, plan, source, method)")
 MANIFEST_ENTRY = dict(level="exploration", design="DESIGN.md section 4 / C07",
     technique="bounded-exhaustive enumeration of all exactly identified plans with <= 2 targets/instruments over 3 dates on generated models; exactness, unchanged-input, re-simulation and inversion oracles",
-    text="For 6 (quick) / 10 (thorough) determinate generated linear models (with lags, leads, cross terms) every exactly identified plan with 1 or 2 targets and instruments over dates 1..3 in unanticipated and in anticipated mode is simulated (first_order; stacked_time for all single-swap plans): every exogenized cell equals its input value, only endogenized shocks at endogenized dates differ from their inputs (all other shocks, initial conditions untouched), the planned path is reproduced by an ordinary simulation driven by the returned shocks (so it satisfies the equations in the sense of C01), and when the targets come from an ordinary simulation driven by shocks at the instrument cells the plan recovers those shocks and the whole path (asserted for unanticipated plans and for anticipated plans with a single information set).",
+    text="For 7 (quick) / 10 (thorough) determinate generated models (with lags, leads, cross terms; one with log-variables) every exactly identified plan with 1 or 2 targets and instruments over dates 1..3 in unanticipated and in anticipated mode is simulated (first_order; stacked_time for all single-swap plans): every exogenized cell equals its input value, only endogenized shocks at endogenized dates differ from their inputs (all other shocks, initial conditions untouched), the planned path is reproduced by an ordinary simulation driven by the returned shocks (so it satisfies the equations in the sense of C01), and when the targets come from an ordinary simulation driven by shocks at the instrument cells the plan recovers those shocks and the whole path (asserted for unanticipated plans and for anticipated plans with a single information set).",
     note="Trusted: the unplanned first-order simulator (C01) as the reference for re-simulation and impact matrices. Ill-conditioned plans (cond > 1e6) excluded by an oracle-side criterion and counted. stacked_time runs that report failure are counted, not gated.")
 ASSUMPTIONS = ["the unplanned first-order simulator is correct (C01)"]
 
@@ -42,12 +42,12 @@ def models(tier):
         mk(2, (2, 1), (0, 0), 0, "backward", meas="none"),
         mk(1, (1,), (1,), 0, "saddle", meas="none"),
     ]
+    L.append(mk(2, (1, 1), (0, 1), -1, "saddle", meas="one", log=True))
     if tier != "quick":
         L += [
             mk(3, (1, 1, 1), (0, 1, 0), -1, "saddle", meas="none"),
             mk(2, (1, 1), (1, 1), 1, "saddle", meas="none"),
             mk(2, (1, 2), (2, 0), -1, "saddle", meas="none"),
-            mk(2, (1, 1), (0, 1), -1, "saddle", meas="one", log=True),
         ]
     return L
 
